@@ -22,13 +22,13 @@ CLAIMED = {
 
 CLAIMED.update({
     "C14": (
-        "property-based round-trip testing: generated mini-gringo trees -> text by an independent fully-parenthesising printer (random whitespace/comments/spellings) -> parse/print/parse; oracle = tree identity and print stability (proptest, shrinking)",
+        "property-based round-trip testing: generated mini-gringo trees -> text by an independent fully-parenthesising printer (random whitespace/comments/spellings) -> parse/print/parse; oracle = tree identity and print stability (proptest, shrinking); plus a size-boundary search: programs of up to 20 000 (thorough 60 000) compactly written rules, bisection for the largest accepted size if a limit exists, where the printed program must be accepted again",
         "Exploration: every generated term, atom, body element, rule and program is rendered by the checker's own printer, parsed by anthem, printed by anthem and parsed again; the two trees must be identical and the printed text stable. All (parent operator, side, child operator/negative numeral) pairs are populated thousands of times per run (histogram in the evidence).",
         "Trusted: the checker's printer produces text whose parse is the generated tree's normal form; only trees in the image of the parser are compared.",
         "4/C14",
     ),
     "C15": (
-        "property-based round-trip testing: (a) generated target-language trees via an independent printer -> parse/print/parse identity; (b) every output of translate/simplify on generated programs, and of gamma/simplify on generated hand-written theories, is re-parsed and compared (tree, else meaning by evaluation); (c) candidate identifiers at and beyond the edge of the documented shapes: whatever program, theory, user guide or specification the grammars accept must print text that reads back as the same tree",
+        "property-based round-trip testing: (a) generated target-language trees via an independent printer -> parse/print/parse identity; (b) every output of translate/simplify on generated programs, and of gamma/simplify on generated hand-written theories, is re-parsed and compared (tree, else meaning by evaluation); (c) candidate identifiers at and beyond the edge of the documented shapes: whatever program, theory, user guide or specification the grammars accept must print text that reads back as the same tree; (d) generated programs of 16-600 rules through `translate` of the real binary, the output through `parse --as theory` and `translate --with gamma`",
         "Exploration: (a) as C14 for integer/general terms, formulas, theories, specifications (all roles/directions/names) and user guides with every accepted sort spelling; (b) the text printed for tau-star, natural, mu, gamma, completion and the 9 simplify variants on generated programs (predicate names such as notp, _r; variables named like the translators' fresh names) must be accepted, stable, and denote the same theory; the same for gamma and the 9 simplify variants applied to generated theories with leading-underscore names, keyword-prefixed names and one name at several sorts.",
         "Trusted: the checker's printer; for (b) the tree comparison (falls back to the checker's evaluator only when trees differ).",
         "4/C14-C15",
@@ -64,7 +64,7 @@ CLAIMED.update({
         "4/C01",
     ),
     "C03": (
-        "property-based differential testing: generated program pairs x flags x (H,T) incl. H not subset of T; oracle = reference HT satisfaction of both programs vs exact classical evaluation of every emitted problem (hooked syntax trees) in I_(H,T); a twelfth of the cases also through the binary (five ways of naming the two program files) with the written files compared to the problems judged in-process",
+        "property-based differential testing: generated program pairs x flags x (H,T) incl. H not subset of T; oracle = reference HT satisfaction of both programs vs exact classical evaluation of every emitted problem (hooked syntax trees) in I_(H,T); a twelfth of the cases also through the binary (five ways of naming the two program files) with the written files compared to the problems judged in-process, and in a fifth of the cases the emitted TPTP text of every problem is read back by the strict reader and must agree with its tree in the interpretation",
         "Exploration: an interpretation of the h-/t-copies refutes an emitted forward/backward problem iff H subset-of T and (H,T) satisfies one program but not the other, over all flag combinations and both formula representations; unrequested directions must be absent.",
         "Trusted: reference semantics, exact evaluator; identifiers chosen so that symbol renaming does not interfere (C09/C12 cover renaming).",
         "4/C03",
@@ -88,7 +88,7 @@ CLAIMED.update({
         "4/C09",
     ),
     "C11": (
-        "property-based differential testing: generated programs; oracle = independent dependency-graph acyclicity and an independent implementation of the documented regularity definition; tasks with exactly one broken precondition must be refused with nothing emitted",
+        "property-based differential testing: generated programs; oracle = independent dependency-graph acyclicity and an independent implementation of the documented regularity definition; tasks with exactly one broken precondition must be refused with nothing emitted (library, and the binary with and without --save-problems)",
         "Exploration: is_tight/is_regular (and the analyze command on a sample) agree with independent implementations on programs with equal names at different arities, all signs, choice heads, long cycles; every task with one precondition broken by construction is refused and valid controls are accepted.",
         "Trusted: the documented definitions (analyze.md; unary minus read as 0 - t).",
         "4/C11",
